@@ -549,13 +549,10 @@ Section After.
           rewrite N.eqb_refl, str_eqb_refl. reflexivity. }
         set (tp := (rtarget r, join_rel (rpath r) (fst e))) in *.
         assert (HinM : In tp M).
-        { unfold M, managed_for_plan.
-          assert (Hl : In tp (load_managed (files w) roots)).
-          { unfold load_managed. apply in_flat_map. exists r. split; [exact Hr|].
-            unfold root_managed. rewrite Hold. apply in_map_iff. exists e. split; [reflexivity|].
-            apply filter_In. auto. }
-          destruct (load_managed (files w) roots) as [|x m]; [contradiction|].
-          apply in_filter_managed. auto. }
+        { unfold M. apply load_in_managed_for_plan; [|exact Hpass].
+          unfold load_managed. apply in_flat_map. exists r. split; [exact Hr|].
+          unfold root_managed. rewrite Hold. apply in_map_iff. exists e. split; [reflexivity|].
+          apply filter_In. auto. }
         destruct (mem_key tp D) eqn:Ek; [left; reflexivity|right].
         destruct tp as [t p]. eapply files_after_removed; eauto.
     - (* snapshot fallback: the record this deploy has just written *)
